@@ -3,9 +3,12 @@
     - [csp::Rule::to_header_nonce] and the CSP Package extension ([Extensions::with_csp], src/csp.rs),
     - the [referrer-policy] and [server] Package extensions and the Package chain
       ([Extensions::resolve_package], called by [SendKind::send], src/lib.rs),
-    - the part of the cache-miss path of [handle_cache] that decides whether a page is stored.
+    - the part of the cache-miss path of [handle_cache] that decides whether a page is stored,
+    - the line of Present directives of a page ([Extensions::resolve_present]: [!> nonce &> cache server:full])
+      with kvarn_extensions' [cache], [allow-ips], [hide] (extensions/src/lib.rs).
     Definitions only; proofs live in Proofs/NonceProofs.v. *)
 From KV Require Export Bytes RuleSet.
+From KV Require PathSan.
 Open Scope N_scope.
 
 Definition NONCE_EQ : bytes := Eval vm_compute in B "nonce=".
@@ -15,6 +18,7 @@ Definition c_sp : N := 32.
 Definition E_FUEL : N := 7.
 
 Definition is_nil {A} (l : list A) : bool := match l with [] => true | _ => false end.
+Definition is_none {A} (o : option A) : bool := match o with None => true | Some _ => false end.
 
 (** [BytesCow::replace(remove, replacement)] (utils/src/lib.rs): a start after the end is
     moved to the end; a range that ends after the buffer panics ([copy_within]). *)
@@ -269,11 +273,22 @@ Fixpoint bt_insert (name : bytes) (vs : list bytes) (m : list (bytes * list byte
   end.
 
 (** ---- Package extensions ---- *)
-(** [with_csp] after the repair: [csp-nonce] is removed whether or not a rule matched. *)
-Definition pkg_csp (rules : ruleset csp_rule) (path : bytes) (h : headers) : headers :=
+(** [Cors::resolved_path] (src/cors.rs), used by [with_csp] since the repair: the path the file is
+    read from — percent-decoded ([kvarn_utils::percent_decode]: the text itself when the decoded bytes
+    are not UTF-8) and without repeated '/'. *)
+Fixpoint collapse_slashes (s : bytes) (prev_slash : bool) : bytes :=
+  match s with
+  | [] => []
+  | c :: r => if (c =? 47) && prev_slash then collapse_slashes r true else c :: collapse_slashes r (c =? 47)
+  end.
+Definition csp_path (p : bytes) : bytes := collapse_slashes (PathSan.util_percent_decode p) false.
+
+(** [with_csp]; [pf] = how the rule is looked up.  After the repairs: [pf = csp_path], and [csp-nonce]
+    is removed whether or not a rule matched. *)
+Definition pkg_csp_with (pf : bytes -> bytes) (rules : ruleset csp_rule) (path : bytes) (h : headers) : headers :=
   let nonce := h_get H_NONCE h in
   let h1 :=
-    match rs_get rules path with
+    match rs_get rules (pf path) with
     | Some rule =>
         match to_header_nonce rule nonce with
         | Some v => h_insert H_CSP v h
@@ -282,7 +297,10 @@ Definition pkg_csp (rules : ruleset csp_rule) (path : bytes) (h : headers) : hea
     | None => h
     end in
   match nonce with Some _ => h_remove H_NONCE h1 | None => h1 end.
-(** [with_csp] before the repair: [csp-nonce] only removed inside [if let Some(rule)]. *)
+Definition pkg_csp := pkg_csp_with csp_path.
+(** as it was before the repair "rule of the path the file is read from": the path as spelled in the request *)
+Definition pkg_csp_raw := pkg_csp_with (fun p => p).
+(** [with_csp] in kvarn 0.6.3: raw path, and [csp-nonce] only removed inside [if let Some(rule)]. *)
 Definition pkg_csp_v0 (rules : ruleset csp_rule) (path : bytes) (h : headers) : headers :=
   match rs_get rules path with
   | Some rule =>
@@ -292,10 +310,25 @@ Definition pkg_csp_v0 (rules : ruleset csp_rule) (path : bytes) (h : headers) : 
   | None => h
   end.
 Definition pkg_referrer (h : headers) : headers := h_or_insert H_REFERRER NO_REFERRER h.
+(** [with_server_header(name, add_platform, override_server_header)] (the harness runs on Linux) *)
+Definition PLATFORM : bytes := Eval vm_compute in B " (Linux)".
+Definition server_value (platform : bool) (server : bytes) : bytes := server ++ (if platform then PLATFORM else []).
+Definition pkg_server_flags (platform override : bool) (server : bytes) (h : headers) : headers :=
+  if override then h_insert H_SERVER (server_value platform server) h
+  else h ++ [(H_SERVER, server_value platform server)].          (* [HeaderMap::append] *)
 Definition pkg_server (server : bytes) (h : headers) : headers := h_insert H_SERVER server h.
 
-(** [Extensions::new()] + [with_csp] + [with_server_header(name, false, true)]: the Package
-    list with its priorities (kept sorted, highest first, by [add_sorted_list!] — C16). *)
+(** Which Package extensions are registered, and the flags of [with_server_header]. *)
+Record pkg_cfg := mkCfg { pc_csp : bool; pc_ref : bool; pc_server : bool; pc_platform : bool; pc_override : bool }.
+(** [Extensions::new()] (+ [with_csp] + [with_server_header(name, false, true)]) *)
+Definition cfg_new : pkg_cfg := mkCfg true true true false true.
+
+(** the Package list with its priorities (kept sorted, highest first, by [add_sorted_list!] — C16) *)
+Definition package_list_cfg (cfg : pkg_cfg) (csp : ruleset csp_rule -> bytes -> headers -> headers)
+    (rules : ruleset csp_rule) (server path : bytes) : list (Z * (headers -> headers)) :=
+  (if pc_csp cfg then [ (128%Z, csp rules path) ] else []) ++
+  (if pc_ref cfg then [ (10%Z, pkg_referrer) ] else []) ++
+  (if pc_server cfg then [ ((-1327)%Z, pkg_server_flags (pc_platform cfg) (pc_override cfg) server) ] else []).
 Definition package_list (csp : ruleset csp_rule -> bytes -> headers -> headers)
     (rules : ruleset csp_rule) (server path : bytes) : list (Z * (headers -> headers)) :=
   [ (128%Z, csp rules path); (10%Z, pkg_referrer); ((-1327)%Z, pkg_server server) ].
@@ -304,51 +337,107 @@ Definition resolve_package (l : list (Z * (headers -> headers))) (h : headers) :
   fold_left (fun h e => snd e h) l h.
 Definition package_chain (rules : ruleset csp_rule) (server path : bytes) (h : headers) : headers :=
   resolve_package (package_list pkg_csp rules server path) h.
+Definition package_chain_cfg (cfg : pkg_cfg) (rules : ruleset csp_rule) (server path : bytes) (h : headers) : headers :=
+  resolve_package (package_list_cfg cfg pkg_csp rules server path) h.
+Definition package_chain_raw (rules : ruleset csp_rule) (server path : bytes) (h : headers) : headers :=
+  resolve_package (package_list pkg_csp_raw rules server path) h.
 Definition package_chain_v0 (rules : ruleset csp_rule) (server path : bytes) (h : headers) : headers :=
   resolve_package (package_list pkg_csp_v0 rules server path) h.
 
-(** ---- the nonce Present extension and the decision to store a page ---- *)
-Inductive server_pref := SNone | SFull | SQueryMatters.
-Record page := { pg_body : bytes; pg_headers : headers; pg_pref : server_pref }.
+(** the rule set of [Extensions::new()]: [Csp::default()] = [/*] -> [Rule::default()] *)
+Definition csp_default_rule : csp_rule := Eval vm_compute in
+  (set_nth 2 [B "'self'"] (set_nth 13 [B "'self'"; B "'unsafe-inline'"] (fst csp_empty)), []).
+Definition csp_default_hist : list (bytes * csp_rule) := Eval vm_compute in [(B "/*", csp_default_rule)].
+
+(** ---- the Present extensions of a page and the decision to store it ---- *)
+Inductive server_pref := SNone | SFull | SQueryMatters | SMaxAge.
+(** [pg_marker]: the [NoServerCache] mark that kvarn_extensions' [allow-ips] leaves in the response's extensions *)
+Record page := { pg_status : N; pg_body : bytes; pg_headers : headers; pg_pref : server_pref; pg_marker : bool }.
+Definition set_pref (s : server_pref) (p : page) : page :=
+  {| pg_status := pg_status p; pg_body := pg_body p; pg_headers := pg_headers p; pg_pref := s; pg_marker := pg_marker p |}.
+Definition set_marker (m : bool) (p : page) : page :=
+  {| pg_status := pg_status p; pg_body := pg_body p; pg_headers := pg_headers p; pg_pref := pg_pref p; pg_marker := m |}.
+(** the [nonce] extension ([with_nonce]): rewrite, [csp-nonce], server cache preference None *)
 Definition nonce_present (rewrite : bytes -> bytes -> outcome bytes) (nonce : bytes) (p : page) : outcome page :=
   obind (rewrite nonce (pg_body p)) (fun body' =>
-  Ok {| pg_body := body'; pg_headers := h_insert H_NONCE nonce (pg_headers p); pg_pref := SNone |}).
+  Ok {| pg_status := pg_status p; pg_body := body'; pg_headers := h_insert H_NONCE nonce (pg_headers p);
+        pg_pref := SNone; pg_marker := pg_marker p |}).
 
 (** [ServerCachePreference::cache] for a GET and a status the host's filter accepts *)
 Definition admits (p : server_pref) : bool := match p with SNone => false | _ => true end.
+(** [host::Options::status_code_cache_filter] (default): statuses that are not cached *)
+Definition status_not_cached (s : N) : bool :=
+  ((400 <=? s) && (s <=? 403)) || ((405 <=? s) && (s <=? 409)) || ((411 <=? s) && (s <=? 499))
+  || ((100 <=? s) && (s <=? 199)) || (s =? 304).
 
-(** One path of one host.  [handler] is what the Prepare extension returns (data after the
-    [!> nonce] line, preference); [has_line] says whether the file starts with [!> nonce].
-    [rng k] is the value the generator yields for the k-th computation. *)
-Record pstate := { st_calls : nat; st_cache : option page }.
-Definition page_request (rewrite : bytes -> bytes -> outcome bytes) (rng : nat -> bytes) (has_line : bool)
-    (handler : page) (st : pstate) : outcome (pstate * page) :=
+(** One directive of the line [!> name args &> name args] at the start of a page:
+    [nonce] (kvarn), [cache], [allow-ips], [hide] (kvarn_extensions), anything else without effect on
+    what this property looks at ([download], unknown names). *)
+Inductive directive :=
+| DNonce
+| DCache (server : option server_pref)    (* the last argument [server:<preference>] that parses *)
+| DAllowIps (matched : bool)              (* does an argument name the client's address? *)
+| DHide
+| DNoop.
+Definition ERR_BODY : bytes := Eval vm_compute in B "ERRPAGE".
+(** [default_error(404)] put in place of the response (a fresh response: no headers of the old one, no mark) *)
+Definition not_found_page (p : page) : page :=
+  {| pg_status := 404; pg_body := ERR_BODY; pg_headers := []; pg_pref := pg_pref p; pg_marker := false |}.
+(** [rng k] is the value the generator yields for the k-th draw; the state counts the draws *)
+Definition present_step (rewrite : bytes -> bytes -> outcome bytes) (rng : nat -> bytes)
+    (st : outcome (nat * page)) (d : directive) : outcome (nat * page) :=
+  obind st (fun kp =>
+  let k := fst kp in let p := snd kp in
+  match d with
+  | DNonce => obind (nonce_present rewrite (rng (S k)) p) (fun p' => Ok (S k, p'))
+  | DCache (Some s) => Ok (k, if pg_marker p then p else set_pref s p)
+  | DCache None => Ok (k, p)
+  | DAllowIps matched => Ok (k, set_marker true (set_pref SNone (if matched then p else not_found_page p)))
+  | DHide => Ok (k, not_found_page p)
+  | DNoop => Ok (k, p)
+  end).
+(** [resolve_present]: the directives in order; then ([guard], the repair) a response that carries a nonce
+    never keeps a server cache preference *)
+Definition nonce_guard (guard : bool) (p : page) : page :=
+  if guard && negb (is_nil (h_all H_NONCE (pg_headers p))) then set_pref SNone p else p.
+Definition present_chain (guard : bool) (rewrite : bytes -> bytes -> outcome bytes) (rng : nat -> bytes)
+    (line : list directive) (k : nat) (p : page) : outcome (nat * page) :=
+  obind (fold_left (present_step rewrite rng) line (Ok (k, p))) (fun kp => Ok (fst kp, nonce_guard guard (snd kp))).
+
+(** One path of one host.  [handler] is what the Prepare extension returns (data after the line,
+    preference); [line] the directives of its first line. *)
+Record pstate := { st_calls : nat; st_draws : nat; st_cache : option page }.
+Definition pstate0 : pstate := {| st_calls := O; st_draws := O; st_cache := None |}.
+Definition page_request (guard : bool) (rewrite : bytes -> bytes -> outcome bytes) (rng : nat -> bytes)
+    (line : list directive) (handler : page) (st : pstate) : outcome (pstate * page) :=
   match st_cache st with
   | Some stored => Ok (st, stored)
   | None =>
-      let calls := S (st_calls st) in
-      obind (if has_line then nonce_present rewrite (rng calls) handler else Ok handler) (fun p =>
-      Ok ({| st_calls := calls; st_cache := if admits (pg_pref p) then Some p else None |}, p))
+      obind (present_chain guard rewrite rng line (st_draws st) handler) (fun kp =>
+      let p := snd kp in
+      Ok ({| st_calls := S (st_calls st); st_draws := fst kp;
+             st_cache := if admits (pg_pref p) && negb (status_not_cached (pg_status p)) then Some p else None |}, p))
   end.
-Fixpoint page_history (rewrite : bytes -> bytes -> outcome bytes) (rng : nat -> bytes) (has_line : bool)
-    (handler : page) (n : nat) (st : pstate) : outcome (pstate * list page) :=
+Fixpoint page_history (guard : bool) (rewrite : bytes -> bytes -> outcome bytes) (rng : nat -> bytes)
+    (line : list directive) (handler : page) (n : nat) (st : pstate) : outcome (pstate * list page) :=
   match n with
   | O => Ok (st, [])
   | S m =>
-      obind (page_request rewrite rng has_line handler st) (fun r =>
-      obind (page_history rewrite rng has_line handler m (fst r)) (fun r2 =>
+      obind (page_request guard rewrite rng line handler st) (fun r =>
+      obind (page_history guard rewrite rng line handler m (fst r)) (fun r2 =>
       Ok (fst r2, snd r :: snd r2)))
   end.
 
 (** the value of the k-th draw of the generator in the correspondence run: 24 symbolic
     "bytes" 1000k .. 1000k+23 (outside the byte range) *)
-Definition sym_nonce (k : nat) : bytes := map (fun i => N.of_nat (1000 * k + i)) (seq 0 24).
+Definition sym_nonce (k : nat) : bytes := map (fun i => 1000 * N.of_nat k + N.of_nat i) (seq 0 24).
 
 (** ---- Specification of the Package chain: the headers the property demands ----
     [hist] is the history of [add_mut] calls that built the CSP rule set; the rule is chosen by the
-    independent resolver [resolve] of Model/RuleSet.v, not by the vector. *)
+    independent resolver [resolve] of Model/RuleSet.v, not by the vector, for the path the file is
+    read from ([csp_path]: percent-decoded, repeated slashes collapsed). *)
 Definition spec_csp (hist : list (bytes * csp_rule)) (path : bytes) (h : headers) : list bytes :=
-  match resolve hist path with
+  match resolve hist (csp_path path) with
   | Some rule =>
       match to_header_nonce rule (h_get H_NONCE h) with
       | Some v => [v]
@@ -361,9 +450,71 @@ Definition spec_referrer (h : headers) : list bytes :=
 Definition spec_security (hist : list (bytes * csp_rule)) (server path : bytes) (h : headers) : headers :=
   map (pair H_CSP) (spec_csp hist path h) ++ map (pair H_REFERRER) (spec_referrer h) ++ [(H_SERVER, server)].
 
+(** ... with the flags of [with_server_header]: the configured value (with the platform suffix when asked
+    for) is the only [server] header, or — [override_server_header = false] — follows the ones the
+    response had *)
+Definition spec_server (platform override : bool) (server : bytes) (h : headers) : list bytes :=
+  if override then [server_value platform server] else h_all H_SERVER h ++ [server_value platform server].
+
+(** ---- Independent specification of the serialisation: the policy as a CSP parser reads it ----
+    CSP3 2.2.1 "parse a serialized CSP": split on ';', in each part the tokens separated by spaces:
+    the first is the directive name, the rest its source list; parts without a token are skipped. *)
+Definition c_semi : N := 59.
+Fixpoint split_byte (c : N) (s : bytes) : list bytes :=
+  match s with
+  | [] => [[]]
+  | x :: r =>
+      if N.eqb x c then [] :: split_byte c r
+      else match split_byte c r with seg :: rest => (x :: seg) :: rest | [] => [[x]] end
+  end.
+Definition tokens (s : bytes) : list bytes := filter (fun t => negb (is_nil t)) (split_byte c_sp s).
+Definition parse_directive (seg : bytes) : list (bytes * list bytes) :=
+  match tokens seg with [] => [] | name :: sources => [(name, sources)] end.
+Definition parse_policy (s : bytes) : list (bytes * list bytes) := flat_map parse_directive (split_byte c_semi s).
+
+(** what the policy of a rule has to say — no text involved: each named directive that has values, and
+    each of the four script/style directives when the page has a nonce, with the rule's values (['self']
+    when it has none) followed by the nonce source; then the rule's free-form directives that have values *)
+Definition SELF : bytes := Eval vm_compute in B "'self'".
+Definition nonce_usable (nonce : option bytes) : option bytes :=
+  match nonce with Some n => if hv_to_str_ok n then Some n else None | None => None end.
+Definition spec_sources (special : bool) (nonce : option bytes) (vals : list bytes) : list bytes :=
+  if special then
+    match nonce_usable nonce with
+    | Some n => (match vals with [] => [SELF] | _ => vals end) ++ [nonce_source n]
+    | None => vals
+    end
+  else vals.
+Definition spec_named (nonce : option bytes) (d : list bytes * list bytes) : list (bytes * list bytes) :=
+  let special := is_special nonce (fst d) in
+  if negb (is_nil (snd d)) || special then map (fun name => (name, spec_sources special nonce (snd d))) (fst d) else [].
+Definition spec_undefined (u : bytes * list bytes) : list (bytes * list bytes) := if is_nil (snd u) then [] else [u].
+Definition spec_policy (r : csp_rule) (nonce : option bytes) : list (bytes * list bytes) :=
+  flat_map (spec_named nonce) (combine directive_names (fst r)) ++ flat_map spec_undefined (snd r).
+(** a token of a policy: not empty, no space, no semicolon *)
+Definition wf_tok (t : bytes) : Prop := t <> [] /\ ~ In c_sp t /\ ~ In c_semi t.
+Definition wf_rule (r : csp_rule) : Prop :=
+  length (fst r) = 27%nat /\ Forall (Forall wf_tok) (fst r) /\
+  Forall (fun u => wf_tok (fst u) /\ Forall wf_tok (snd u)) (snd r).
+Definition wf_nonce (nonce : option bytes) : Prop :=
+  match nonce with Some n => ~ In c_sp n /\ ~ In c_semi n | None => True end.
+
+(** the policies the property demands, as parsed policies: the one of the most specific rule for the
+    path the file is read from, or — that rule says nothing / no rule — what the handler set *)
+Definition spec_csp_parsed (hist : list (bytes * csp_rule)) (path : bytes) (h : headers) : list (list (bytes * list bytes)) :=
+  match resolve hist (csp_path path) with
+  | Some rule =>
+      match spec_policy rule (h_get H_NONCE h) with
+      | [] => map parse_policy (h_all H_CSP h)
+      | pol => [pol]
+      end
+  | None => map parse_policy (h_all H_CSP h)
+  end.
+
 (** the reply the property demands for a nonce page when the generator drew [n] *)
 Definition nonce_reply (n : bytes) (handler : page) : page :=
-  {| pg_body := nonce_spec n (pg_body handler); pg_headers := h_insert H_NONCE n (pg_headers handler); pg_pref := SNone |}.
+  {| pg_status := pg_status handler; pg_body := nonce_spec n (pg_body handler);
+     pg_headers := h_insert H_NONCE n (pg_headers handler); pg_pref := SNone; pg_marker := pg_marker handler |}.
 
 (** a policy is a list of directives separated by "; ": what precedes a directive is empty or ends
     with the separator, what follows is empty or starts with it *)
@@ -371,15 +522,17 @@ Definition sep_tail (post : bytes) : Prop := post = [] \/ exists p, post = SEMI_
 Definition sep_head (pre : bytes) : Prop := pre = [] \/ exists p, pre = p ++ SEMI_SP.
 
 (** ---- the send path on a small fixture ([handle_connection] -> [handle_cache] -> [SendKind::send]) ----
-    A host with response cache, no file system, [Extensions::new()] + CSP rule set + server header and
-    Prepare handlers for single paths.  What is modelled is which response *head* reaches the
-    Package chain for hits, misses, error statuses, 304 and ranges; bodies of Kvarn's error pages
-    are a placeholder (only their being non-empty and shorter than 2000 bytes matters). *)
+    A host with response cache, [Extensions::new()] (+ CSP rule set + server header), Prepare handlers
+    for single paths and — when the case has files — a directory of files.  What is modelled is which
+    response *head* reaches the Package chain for hits, misses, error statuses, 304 and ranges; bodies of
+    Kvarn's error pages are a placeholder (only their being non-empty and shorter than 2000 bytes
+    matters).  [ch_fs]: a file [public/<ch_path>] (status 200, no headers, cached) instead of a handler. *)
 Record chandler := mkCH { ch_path : bytes; ch_status : N; ch_headers : headers;
-                          ch_cache : bool; ch_nonce : bool; ch_body : bytes }.
+                          ch_cache : bool; ch_line : list directive; ch_body : bytes; ch_fs : bool }.
 (** method: 0 GET, 1 HEAD, 2 POST; range: 0 none, 1 [bytes=0-3], 2 [bytes=2000-2999];
-    ims: [if-modified-since] with a date in the far future *)
-Record creq := mkCR { cr_method : N; cr_path : bytes; cr_range : N; cr_ims : bool }.
+    ims: [if-modified-since] with a date in the far future; enc: the [accept-encoding] sent (the client
+    decodes the body: compression is invisible here) *)
+Record creq := mkCR { cr_method : N; cr_path : bytes; cr_range : N; cr_ims : bool; cr_enc : N }.
 Record creply := mkCRep { rp_status : N; rp_headers : headers; rp_body : bytes }.
 Record cstate := mkCS { cs_cache : list (bytes * creply); cs_nonces : nat }.
 
@@ -387,34 +540,49 @@ Definition c_slash : N := 47.
 Definition c_dot : N := 46.
 Definition INDEX_HTML : bytes := Eval vm_compute in B "index.html".
 Definition HTML : bytes := Eval vm_compute in B "html".
-Definition DOT_SLASH : bytes := Eval vm_compute in B "./".
-Definition ERR_BODY : bytes := Eval vm_compute in B "ERRPAGE".
 (** the Prime extension of [with_uri_redirect] (it rewrites [request.uri()]) *)
 Definition prime_path (p : bytes) : bytes :=
   match rev p with
   | c :: _ => if N.eqb c c_slash then p ++ INDEX_HTML else if N.eqb c c_dot then p ++ HTML else p
   | [] => p
   end.
-(** [sanitize_request] on the paths of the fixture: refused iff the path contains [./] *)
-Definition unsafe_path (p : bytes) : bool := contains_sub DOT_SLASH p.
-(** [host::Options::status_code_cache_filter] (default): statuses that are not cached *)
-Definition status_not_cached (s : N) : bool :=
-  ((400 <=? s) && (s <=? 403)) || ((405 <=? s) && (s <=? 409)) || ((411 <=? s) && (s <=? 499))
-  || ((100 <=? s) && (s <=? 199)) || (s =? 304).
+(** [sanitize_request] (path part, Model/PathSan.v): refused iff the lossily percent-decoded path
+    contains [./] or does not start with exactly one [/] *)
+Definition unsafe_path (p : bytes) : bool :=
+  match PathSan.sanitize_path p with Ok _ => false | _ => true end.
 Definition c_lookup (p : bytes) (c : list (bytes * creply)) : option creply :=
   option_map snd (find (fun e => beq (fst e) p) c).
 
-(** a cache miss: the Prepare handler of the path (or 404), then the Present extensions *)
-Definition conn_compute (rewrite : bytes -> bytes -> outcome bytes) (hs : list chandler)
-    (p : bytes) (unsafe : bool) (k : nat) : outcome (creply * bool * nat) :=
+Definition page_of_handler (h : chandler) : page :=
+  if ch_fs h then {| pg_status := 200; pg_body := ch_body h; pg_headers := []; pg_pref := SFull; pg_marker := false |}
+  else {| pg_status := ch_status h; pg_body := ch_body h; pg_headers := ch_headers h;
+          pg_pref := if ch_cache h then SFull else SNone; pg_marker := false |}.
+(** the Prepare extension bound to the (rewritten) path as spelled; else the file named by the
+    percent-decoded path ([None]: the decoded bytes are not UTF-8, no file path at all), where the
+    operating system ignores repeated slashes *)
+Definition find_source (hs : list chandler) (p : bytes) : option chandler :=
+  match find (fun h => negb (ch_fs h) && beq (ch_path h) p) hs with
+  | Some h => Some h
+  | None =>
+      match PathSan.decoded_for_use p with
+      | Some d => find (fun h => ch_fs h && beq (ch_path h) (collapse_slashes d false)) hs
+      | None => None
+      end
+  end.
+(** a cache miss: the handler / file of the path (or 404; 405 for a POST that no handler takes when the
+    host serves files), then the Present extensions of its first line *)
+Definition conn_compute (guard : bool) (rewrite : bytes -> bytes -> outcome bytes) (hs : list chandler)
+    (p : bytes) (unsafe : bool) (m : N) (k : nat) : outcome (creply * bool * nat) :=
   if unsafe then Ok (mkCRep 400 [] ERR_BODY, false, k) else
-  match find (fun h => beq (ch_path h) p) hs with
-  | None => Ok (mkCRep 404 [] ERR_BODY, true, k)   (* [handle_request] wraps its 404 in [FatResponse::cache] *)
+  (* no file path at all when the decoded bytes are not UTF-8: 404 whatever the method *)
+  let missing := if existsb ch_fs hs && negb ((m =? 0) || (m =? 1)) && negb (is_none (PathSan.decoded_for_use p)) then 405 else 404 in
+  match (if existsb ch_fs hs && negb ((m =? 0) || (m =? 1))
+         then find (fun h => negb (ch_fs h) && beq (ch_path h) p) hs else find_source hs p) with
+  | None => Ok (mkCRep missing [] ERR_BODY, true, k)   (* [handle_request] wraps its error in [FatResponse::cache] *)
   | Some h =>
-      if ch_nonce h then
-        obind (rewrite (sym_nonce (S k)) (ch_body h)) (fun b =>
-        Ok (mkCRep (ch_status h) (h_insert H_NONCE (sym_nonce (S k)) (ch_headers h)) b, false, S k))
-      else Ok (mkCRep (ch_status h) (ch_headers h) (ch_body h), ch_cache h, k)
+      obind (present_chain guard rewrite sym_nonce (ch_line h) k (page_of_handler h)) (fun kp =>
+      let pg := snd kp in
+      Ok (mkCRep (pg_status pg) (pg_headers pg) (pg_body pg), admits (pg_pref pg), fst kp))
   end.
 
 (** [apply_to_response] in [SendKind::send] for the two ranges of the fixture
@@ -433,7 +601,7 @@ Definition conn_range (range : N) (rep : creply) : creply :=
 
 (** one request: the new state, the response that reaches the Package chain, the path the
     Package extensions see *)
-Definition conn_step (rewrite : bytes -> bytes -> outcome bytes) (hs : list chandler)
+Definition conn_step (guard : bool) (rewrite : bytes -> bytes -> outcome bytes) (hs : list chandler)
     (st : cstate) (r : creq) : outcome (cstate * creply * bytes) :=
   let p := prime_path (cr_path r) in
   let unsafe := unsafe_path (cr_path r) in
@@ -442,7 +610,7 @@ Definition conn_step (rewrite : bytes -> bytes -> outcome bytes) (hs : list chan
     (match (if negb unsafe && goh then c_lookup p (cs_cache st) else None) with
      | Some stored => Ok (st, if cr_ims r then mkCRep 304 [] [] else stored)
      | None =>
-         obind (conn_compute rewrite hs p unsafe (cs_nonces st)) (fun res =>
+         obind (conn_compute guard rewrite hs p unsafe (cr_method r) (cs_nonces st)) (fun res =>
          let rep := fst (fst res) in
          let store := snd (fst res) && negb (status_not_cached (rp_status rep)) && goh in
          Ok (mkCS (if store then (p, rep) :: cs_cache st else cs_cache st) (snd res), rep))
@@ -454,13 +622,13 @@ Definition conn_step (rewrite : bytes -> bytes -> outcome bytes) (hs : list chan
 Definition conn_wire (chain : bytes -> headers -> headers) (m : N) (rep : creply) (p : bytes) : creply :=
   mkCRep (rp_status rep) (chain p (rp_headers rep))
          (if (m =? 0) && ((rp_status rep =? 200) || (rp_status rep =? 206)) then rp_body rep else []).
-Fixpoint conn_run (rewrite : bytes -> bytes -> outcome bytes) (chain : bytes -> headers -> headers)
+Fixpoint conn_run (guard : bool) (rewrite : bytes -> bytes -> outcome bytes) (chain : bytes -> headers -> headers)
     (hs : list chandler) (st : cstate) (rs : list creq) : outcome (list creply) :=
   match rs with
   | [] => Ok []
   | r :: rest =>
-      obind (conn_step rewrite hs st r) (fun res =>
-      obind (conn_run rewrite chain hs (fst (fst res)) rest) (fun out =>
+      obind (conn_step guard rewrite hs st r) (fun res =>
+      obind (conn_run guard rewrite chain hs (fst (fst res)) rest) (fun out =>
       Ok (conn_wire chain (cr_method r) (snd (fst res)) (snd res) :: out)))
   end.
 
@@ -470,15 +638,15 @@ Fixpoint conn_run (rewrite : bytes -> bytes -> outcome bytes) (chain : bytes -> 
     prints byte strings as templates: (L (B lit) (L (N k)) (B lit) ...). *)
 Fixpoint tb_go (skip : nat) (s lit : bytes) : list xval :=
   match s with
-  | [] => [XB (rev lit)]
+  | [] => [XB (rev_append lit [])]
   | c :: r =>
       match skip with
       | S k => tb_go k r lit
       | O =>
           if c <? 256 then tb_go O r (c :: lit)
           else if beq (firstn 24 s) (sym_nonce (N.to_nat (c / 1000)))
-               then XB (rev lit) :: XL [XN (c / 1000)] :: tb_go 23 r []
-               else XB (rev lit) :: XN c :: tb_go O r []
+               then XB (rev_append lit []) :: XL [XN (c / 1000)] :: tb_go 23 r []
+               else XB (rev_append lit []) :: XN c :: tb_go O r []
       end
   end.
 Definition x_tb (s : bytes) : xval := XL (tb_go O s []).
@@ -522,18 +690,79 @@ Definition sort_headers (h : headers) : headers := insertion_sort_by hdr_cmp h.
 Definition x_headers (enc : bytes -> xval) (h : headers) : xval :=
   XL (map (fun e => XL [XB (fst e); enc (snd e)]) (sort_headers h)).
 
-(** csp.package — input: (L adds (B path) (L (L (B name) (B value)) ...) (B server)) *)
-Definition run_csp_package (add : ruleset csp_rule -> bytes -> csp_rule -> ruleset csp_rule)
-    (chain : ruleset csp_rule -> bytes -> bytes -> headers -> headers) (x : xval) : xval :=
+(** ---- directives and configurations from the interchange form ---- *)
+Definition LOCAL_IP : bytes := Eval vm_compute in B "127.0.0.1".
+Definition c_colon : N := 58.
+Definition all_digits (s : bytes) : bool := negb (is_nil s) && forallb is_digit s.
+(** [ServerCachePreference::from_str] on the vocabulary of the generator (no sign, no overflow) *)
+Definition parse_server_pref (v : bytes) : option server_pref :=
+  if beq v (B "full") then Some SFull
+  else if beq v (B "query_matters") || beq v (B "query-matters") || beq v (B "QueryMatters") || beq v (B "queryMatters") then Some SQueryMatters
+  else if beq v (B "none") then Some SNone
+  else match rev v with
+       | c :: r => if (c =? 115) && all_digits (rev r) && negb (forallb (N.eqb 48) r) then Some SMaxAge else None
+       | [] => None
+       end.
+(** kvarn_extensions' [cache]: every argument [domain:value(:...)]; the last [server:<pref>] that parses wins *)
+Definition cache_arg (acc : option server_pref) (arg : bytes) : option server_pref :=
+  match split_byte c_colon arg with
+  | domain :: value :: _ =>
+      if beq domain (B "server") then match parse_server_pref value with Some s => Some s | None => acc end else acc
+  | _ => acc
+  end.
+Definition directive_of (name : bytes) (args : list bytes) : directive :=
+  if beq name (B "nonce") then DNonce
+  else if beq name (B "cache") then DCache (fold_left cache_arg args None)
+  else if beq name (B "allow-ips") then DAllowIps (existsb (beq LOCAL_IP) args)
+  else if beq name (B "hide") then DHide
+  else DNoop.
+Definition d_directive (x : xval) : option directive :=
   match x with
-  | XL [adds; XB path; hs; XB server] =>
-      match d_list d_csp_add adds, d_list d_header hs with
-      | Some hist, Some h =>
+  | XL [XB name; args] => match d_list d_B args with Some a => Some (directive_of name a) | None => None end
+  | _ => None
+  end.
+(** [(N 0)] no line, [(N 1)] = [!> nonce], or a list of directives *)
+Definition d_line (x : xval) : option (list directive) :=
+  match x with
+  | XN 0 => Some []
+  | XN 1 => Some [DNonce]
+  | XL _ => d_list d_directive x
+  | _ => None
+  end.
+
+(** cfg = (L (N base) (N flags) (N platform) (N override) (N mount) [(N h2)]); absent = base 1, override.
+    base 0: [Extensions::new()] as it is — the case carries new()'s own rule set and server value;
+    base 1: new() + with_csp + with_server_header(server, platform, override);
+    base 2: [Extensions::empty()] + flags (1 with_csp, 2 with_no_referrer, 4 with_server_header) *)
+Definition d_cfg (x : option xval) : option (N * pkg_cfg) :=
+  match x with
+  | None => Some (1, cfg_new)
+  | Some (XL (XN base :: XN flags :: XN pl :: XN ov :: XN _ :: rest)) =>
+      match rest with
+      | [] | [XN _] =>          (* the optional sixth element: HTTP/2 instead of HTTP/1.1 — the same send path *)
+          match base with
+          | 0 => Some (0, cfg_new)
+          | 1 => Some (1, mkCfg true true true (N.eqb pl 1) (N.eqb ov 1))
+          | _ => Some (2, mkCfg (N.testbit flags 0) (N.testbit flags 1) (N.testbit flags 2) (N.eqb pl 1) (N.eqb ov 1))
+          end
+      | _ => None
+      end
+  | _ => None
+  end.
+Definition cfg_complete (c : pkg_cfg) : bool := pc_csp c && pc_ref c && pc_server c.
+
+(** csp.package — input: (L adds (B path) (L (L (B name) (B value)) ...) (B server) [cfg]) *)
+Definition run_csp_package (add : ruleset csp_rule -> bytes -> csp_rule -> ruleset csp_rule)
+    (csp : ruleset csp_rule -> bytes -> headers -> headers) (x : xval) : xval :=
+  match x with
+  | XL (adds :: XB path :: hs :: XB server :: rest) =>
+      match d_list d_csp_add adds, d_list d_header hs, d_cfg (hd_error rest), rest with
+      | Some hist, Some h, Some (_, cfg), ([] | [_]) =>
           let rules := rs_build add hist in
+          let l := package_list_cfg cfg csp rules server path in
           x_outcome (fun v => v)
-            (Ok (XL [ XL (map (fun e => x_Z (fst e)) (package_list pkg_csp rules server path));
-                      x_headers XB (chain rules server path h) ]))
-      | _, _ => bad_input
+            (Ok (XL [ XL (map (fun e => x_Z (fst e)) l); x_headers XB (resolve_package l h) ]))
+      | _, _, _, _ => bad_input
       end
   | _ => bad_input
   end.
@@ -542,13 +771,17 @@ Definition only_security_headers (h : headers) : headers :=
   filter (fun e => beq (fst e) H_CSP || beq (fst e) H_NONCE || beq (fst e) H_REFERRER || beq (fst e) H_SERVER) h.
 
 Definition x_reply (p : page) : xval :=
-  XL [ XN 200;
+  XL [ XN (pg_status p);
        XL (map (fun e => x_tb (snd e)) (filter (fun e => beq (fst e) H_NONCE) (pg_headers p)));
        x_tb (pg_body p); XN 1 ].
+Definition pref_of (pref : N) : server_pref :=
+  match pref with 0 => SNone | 1 => SFull | 2 => SQueryMatters | _ => SMaxAge end.
+Definition handler_page (body : bytes) (pref : N) : page :=
+  {| pg_status := 200; pg_body := body; pg_headers := []; pg_pref := pref_of pref; pg_marker := false |}.
 
 (** nonce.page — input: (L (B body) (N ext_line) (N pref) adds (B server)):
     two requests for the page, then the Package chain on the head of the first reply. *)
-Definition run_nonce_page (rewrite : bytes -> bytes -> outcome bytes)
+Definition run_nonce_page (guard : bool) (rewrite : bytes -> bytes -> outcome bytes)
     (add : ruleset csp_rule -> bytes -> csp_rule -> ruleset csp_rule)
     (chain : ruleset csp_rule -> bytes -> bytes -> headers -> headers) (x : xval) : xval :=
   match x with
@@ -556,10 +789,8 @@ Definition run_nonce_page (rewrite : bytes -> bytes -> outcome bytes)
       match d_list d_csp_add adds with
       | Some hist =>
           let rules := rs_build add hist in
-          let handler := {| pg_body := body; pg_headers := [];
-                            pg_pref := match pref with 0 => SNone | 1 => SFull | _ => SQueryMatters end |} in
           x_outcome (fun v => v)
-            (obind (page_history rewrite sym_nonce (N.eqb line 1) handler 2 {| st_calls := O; st_cache := None |})
+            (obind (page_history guard rewrite sym_nonce (if N.eqb line 1 then [DNonce] else []) (handler_page body pref) 2 pstate0)
                (fun r =>
                   match snd r with
                   | [r1; r2] =>
@@ -573,10 +804,42 @@ Definition run_nonce_page (rewrite : bytes -> bytes -> outcome bytes)
   | _ => bad_input
   end.
 
-(** csp.package_spec / nonce.spec output: the values of the four headers
-    (L (L csp values) (L referrer-policy values) (L server values) (L csp-nonce values)) *)
-Definition x_security (enc : bytes -> xval) (h : headers) : xval :=
-  XL (map (fun n => XL (map enc (h_all n h))) [H_CSP; H_REFERRER; H_SERVER; H_NONCE]).
+(** nonce.line — input: (L (B body) directives (N pref) (N requests) cfg (B server)):
+    [requests] requests for a page whose first line is [!> directives]; host = [Extensions::new()] as it
+    is (cfg base 0; [server] = its own server value) + kvarn_extensions.
+    output: Ok (L (L reply ...) (N handler_calls) security-headers-of-reply-1-after-the-chain),
+    reply = (L status (L csp-nonce values) body-of-a-200) *)
+Definition x_line_reply (p : page) : xval :=
+  XL [ XN (pg_status p);
+       XL (map (fun e => x_tb (snd e)) (filter (fun e => beq (fst e) H_NONCE) (pg_headers p)));
+       x_tb (if pg_status p =? 200 then pg_body p else []) ].
+Definition run_nonce_line (guard : bool) (x : xval) : xval :=
+  match x with
+  | XL [XB body; ds; XN pref; XN nreq; cfg; XB server] =>
+      match d_list d_directive ds, d_cfg (Some cfg) with
+      | Some line, Some (_, cfg) =>
+          let rules := rs_build rs_add csp_default_hist in
+          x_outcome (fun v => v)
+            (obind (page_history guard nonce_rewrite sym_nonce line (handler_page body pref) (N.to_nat nreq) pstate0)
+               (fun r =>
+                  match snd r with
+                  | r1 :: _ =>
+                      Ok (XL [ XL (map x_line_reply (snd r)); x_nat (st_calls (fst r));
+                               x_headers x_tb (only_security_headers (package_chain_cfg cfg rules server (B "/p") (pg_headers r1))) ])
+                  | [] => Err E_FUEL
+                  end))
+      | _, _ => bad_input
+      end
+  | _ => bad_input
+  end.
+
+(** specification outputs: the values of the four headers
+    (L (L policy ...) (L referrer-policy values) (L server values) (L csp-nonce values)),
+    policy = (L (L name (L source ...)) ...) — the content-security-policy as a parsed policy *)
+Definition x_policy (enc : bytes -> xval) (pol : list (bytes * list bytes)) : xval :=
+  XL (map (fun d => XL [XB (fst d); XL (map enc (snd d))]) pol).
+Definition x_security_parsed (enc : bytes -> xval) (pols : list (list (bytes * list bytes))) (refs servers : list bytes) : xval :=
+  XL [ XL (map (x_policy enc) pols); XL (map enc refs); XL (map enc servers); XL [] ].
 
 (** nonce.spec — the specification on the input of nonce.page (oracle run):
     (L body headers): the demanded body of the first reply as a template ((L) when the page has
@@ -588,65 +851,101 @@ Definition run_nonce_spec (x : xval) : xval :=
       | Some hist =>
           let h := if N.eqb line 1 then [(H_NONCE, sym_nonce 1)] else [] in
           XL [ if N.eqb line 1 then XL [x_tb (nonce_spec (sym_nonce 1) body)] else XL [];
-               x_security x_tb (spec_security hist server (B "/p") h) ]
+               x_security_parsed x_tb (spec_csp_parsed hist (B "/p") h) (spec_referrer h) [server] ]
       | None => bad_input
       end
   | _ => bad_input
   end.
 
-(** csp.package_spec — the demanded values of the four headers, on the input of csp.package *)
+(** csp.package_spec — the demanded values of the four headers, on the input of csp.package
+    (configurations with all three Package extensions) *)
 Definition run_csp_package_spec (x : xval) : xval :=
   match x with
-  | XL [adds; XB path; hs; XB server] =>
-      match d_list d_csp_add adds, d_list d_header hs with
-      | Some hist, Some h => x_security XB (spec_security hist server path h)
-      | _, _ => bad_input
+  | XL (adds :: XB path :: hs :: XB server :: rest) =>
+      match d_list d_csp_add adds, d_list d_header hs, d_cfg (hd_error rest) with
+      | Some hist, Some h, Some (_, cfg) =>
+          if cfg_complete cfg then
+            x_security_parsed XB (spec_csp_parsed hist path h) (spec_referrer h)
+                              (spec_server (pc_platform cfg) (pc_override cfg) server h)
+          else XL [XN 95]
+      | _, _, _ => bad_input
       end
   | _ => bad_input
   end.
 
-(** c14.conn — input: (L adds (B server) handlers requests)
-    handler = (L (B path) (N status) headers (N cache) (N nonce) (B body)); request = (L (N method) (B path) (N range) (N ims))
+(** c14.conn — input: (L adds (B server) handlers requests [cfg])
+    handler = (L (B path) (N status) headers (N cache) line (B body) [(N fs)]); request = (L (N method) (B path) (N range) (N ims) [(N enc)])
     output: Ok (L (L (N status) security-headers body) ...), values as templates *)
 Definition d_chandler (x : xval) : option chandler :=
   match x with
-  | XL [XB p; XN st; hs; XN c; XN n; XB b] =>
-      match d_list d_header hs with
-      | Some h => Some (mkCH p st h (N.eqb c 1) (N.eqb n 1) b)
-      | None => None
+  | XL (XB p :: XN st :: hs :: XN c :: ln :: XB b :: rest) =>
+      match d_list d_header hs, d_line ln, rest with
+      | Some h, Some line, [] => Some (mkCH p st h (N.eqb c 1) line b false)
+      | Some h, Some line, [XN f] => Some (mkCH p st h (N.eqb c 1) line b (N.eqb f 1))
+      | _, _, _ => None
       end
   | _ => None
   end.
 Definition d_creq (x : xval) : option creq :=
   match x with
-  | XL [XN m; XB p; XN r; XN i] => Some (mkCR m p r (N.eqb i 1))
+  | XL [XN m; XB p; XN r; XN i] => Some (mkCR m p r (N.eqb i 1) 0)
+  | XL [XN m; XB p; XN r; XN i; XN e] => Some (mkCR m p r (N.eqb i 1) e)
   | _ => None
   end.
-Definition run_conn (rewrite : bytes -> bytes -> outcome bytes)
-    (chain : list (bytes * csp_rule) -> bytes -> bytes -> headers -> headers) (x : xval) : xval :=
+Definition x_conn_out (enc : headers -> xval) (out : list creply) : xval :=
+  XL (map (fun r => XL [XN (rp_status r); enc (rp_headers r); x_tb (rp_body r)]) out).
+Definition run_conn (guard : bool) (rewrite : bytes -> bytes -> outcome bytes)
+    (chain : pkg_cfg -> list (bytes * csp_rule) -> bytes -> bytes -> headers -> headers) (x : xval) : xval :=
   match x with
-  | XL [adds; XB server; hs; rs] =>
-      match d_list d_csp_add adds, d_list d_chandler hs, d_list d_creq rs with
-      | Some hist, Some hs, Some rs =>
-          x_outcome (fun out => XL (map (fun r => XL [XN (rp_status r); x_headers x_tb (rp_headers r); x_tb (rp_body r)]) out))
-            (conn_run rewrite (chain hist server) hs (mkCS [] O) rs)
-      | _, _, _ => bad_input
+  | XL (adds :: XB server :: hs :: rs :: rest) =>
+      match d_list d_csp_add adds, d_list d_chandler hs, d_list d_creq rs, d_cfg (hd_error rest), rest with
+      | Some hist, Some hs, Some rs, Some (_, cfg), ([] | [_]) =>
+          x_outcome (x_conn_out (x_headers x_tb))
+            (conn_run guard rewrite (chain cfg hist server) hs (mkCS [] O) rs)
+      | _, _, _, _, _ => bad_input
       end
   | _ => bad_input
   end.
-Definition chain_model (hist : list (bytes * csp_rule)) (server path : bytes) (h : headers) : headers :=
-  only_security_headers (package_chain (rs_build rs_add hist) server path h).
-Definition chain_model_v0 (hist : list (bytes * csp_rule)) (server path : bytes) (h : headers) : headers :=
+Definition chain_model (cfg : pkg_cfg) (hist : list (bytes * csp_rule)) (server path : bytes) (h : headers) : headers :=
+  only_security_headers (package_chain_cfg cfg (rs_build rs_add hist) server path h).
+Definition chain_model_v0 (_ : pkg_cfg) (hist : list (bytes * csp_rule)) (server path : bytes) (h : headers) : headers :=
   only_security_headers (package_chain_v0 (rs_build rs_add_v0 hist) server path h).
 
+(** c14.conn_spec — the specification on the input of c14.conn: per request the status and body of the
+    send-path model with the splice specification as rewriter, and the demanded security headers as
+    parsed policies / values: (L (N status) (L policies referrers servers (L)) body) *)
+Definition run_conn_spec (x : xval) : xval :=
+  match x with
+  | XL (adds :: XB server :: hs :: rs :: rest) =>
+      match d_list d_csp_add adds, d_list d_chandler hs, d_list d_creq rs, d_cfg (hd_error rest), rest with
+      | Some hist, Some hs, Some rs, Some (_, cfg), ([] | [_]) =>
+          (* the chain argument only tags the head with the path; the headers are specified below *)
+          x_outcome (fun out => XL (map (fun r =>
+                       match rp_headers r with
+                       | (p, _) :: h =>
+                           XL [XN (rp_status r);
+                               x_security_parsed x_tb (spec_csp_parsed hist p h) (spec_referrer h)
+                                                 (spec_server (pc_platform cfg) (pc_override cfg) server h);
+                               x_tb (rp_body r)]
+                       | [] => XL [XN 95]
+                       end) out))
+            (conn_run true (fun n b => Ok (nonce_spec n b)) (fun p h => (p, []) :: h) hs (mkCS [] O) rs)
+      | _, _, _, _, _ => bad_input
+      end
+  | _ => bad_input
+  end.
+
 Definition nonce_table : list (bytes * (xval -> xval)) :=
-  [ (B "nonce.page", run_nonce_page nonce_rewrite rs_add package_chain);
+  [ (B "nonce.page", run_nonce_page true nonce_rewrite rs_add package_chain);
     (B "nonce.spec", run_nonce_spec);
-    (B "csp.package", run_csp_package rs_add package_chain);
+    (B "nonce.line", run_nonce_line true);
+    (B "csp.package", run_csp_package rs_add pkg_csp);
     (B "csp.package_spec", run_csp_package_spec);
-    (B "c14.conn", run_conn nonce_rewrite chain_model);
-    (B "c14.conn_spec", run_conn (fun n b => Ok (nonce_spec n b)) spec_security);
-    (B "c14.conn_v0", run_conn nonce_rewrite_v0 chain_model_v0);
+    (B "c14.conn", run_conn true nonce_rewrite chain_model);
+    (B "c14.conn_spec", run_conn_spec);
     (* the code as it was before the fix commits; model only (refutation witnesses, history) *)
-    (B "nonce.page_v0", run_nonce_page nonce_rewrite_v0 rs_add_v0 package_chain_v0);
-    (B "csp.package_v0", run_csp_package rs_add_v0 package_chain_v0) ].
+    (B "c14.conn_v0", run_conn false nonce_rewrite_v0 chain_model_v0);
+    (B "nonce.line_v0", run_nonce_line false);
+    (B "nonce.page_v0", run_nonce_page false nonce_rewrite_v0 rs_add_v0 package_chain_v0);
+    (B "csp.package_v0", run_csp_package rs_add_v0 pkg_csp_v0);
+    (B "csp.package_raw", run_csp_package rs_add pkg_csp_raw) ].
